@@ -1,11 +1,13 @@
 --------------------------- MODULE SignalInTrace ---------------------------
 (***************************************************************************)
 (* Trace validation for SignalIn.  Logs is an array of traces              *)
-(*   [cfg |-> [width, bigEndian, epNum, devAddr], steps |-> <<...>>]       *)
+(*   [cfg |-> [width, bigEndian, epNum, devAddr, signalDomain, syncCycles], *)
+(*    steps |-> <<...>>]                                                   *)
 (* recorded from a real USBSignalInEndpoint inside a real USBDevice; steps *)
 (*   [e |-> "tok", pid, addr, ep, win, ack, resp]   a token sent by the    *)
-(*        host; win = the values of `signal` (in time order) in the cycles *)
-(*        from the first byte of the token to the first byte of the answer *)
+(*        host; win = the values of `signal` (limb sequences, in time      *)
+(*        order) in the cycles from cfg.syncCycles cycles before the first *)
+(*        byte of the token to the first byte of the answer                *)
 (*        (or to the end of the observation, if there was none); ack = the *)
 (*        host then sent an ACK handshake; hd = the host sent a data       *)
 (*        packet after the (OUT/SETUP) token; own = the endpoint drove its *)
@@ -39,7 +41,7 @@ Tag(f) == IF f = "ok" \/ ~kf THEN f ELSE f \o "@kf_foreign_ack"
 Candidates(r) == {v \in Range(r.win) : Wire(v) = r.resp.payload}
 
 FailingPoll(r) ==
-    IF r.win = <<>> \/ \E v \in Range(r.win) : v >= 2 ^ Width THEN "env_window"
+    IF r.win = <<>> \/ \E v \in Range(r.win) : ~IsValue(v) THEN "env_window"
     ELSE IF r.resp.kind # "data" THEN "no_data_packet"
     ELSE IF ~r.resp.crc_ok THEN "packet_crc"
     ELSE IF r.resp.pid # PidOf(toggle) THEN "toggle"
